@@ -116,11 +116,11 @@ FindRigidTransformationBySVD<PointType>::estimate_(
   Eigen::Matrix<Scalar, -1, -1> u = svd.matrixU();
   Eigen::Matrix<Scalar, -1, -1> v = svd.matrixV();
 
-  //      if (u.determinant () * v.determinant () < 0)
-  //      {
-  //        for (int x = 0; x < d; ++x)
-  //          v (x, d) *= -1;
-  //      }
+  // keep a proper rotation: when the best orthogonal fit is a reflection (coplanar or noisy
+  // data), flip the direction of the smallest singular value
+  if (u.determinant() * v.determinant() < 0) {
+    v.col(CARTESIAN_DIM - 1) *= -1;
+  }
 
   // Compute translation
   TransformationMatrixType H = TransformationMatrixType::Identity();
@@ -160,11 +160,11 @@ FindRigidTransformationBySVD<PointType>::estimate_(
   Eigen::Matrix<Scalar, -1, -1> u = svd.matrixU();
   Eigen::Matrix<Scalar, -1, -1> v = svd.matrixV();
 
-  //      if (u.determinant () * v.determinant () < 0)
-  //      {
-  //        for (int x = 0; x < d; ++x)
-  //          v (x, d) *= -1;
-  //      }
+  // keep a proper rotation: when the best orthogonal fit is a reflection (coplanar or noisy
+  // data), flip the direction of the smallest singular value
+  if (u.determinant() * v.determinant() < 0) {
+    v.col(CARTESIAN_DIM - 1) *= -1;
+  }
 
   // Compute translation
   TransformationMatrixType H = TransformationMatrixType::Identity();
